@@ -184,6 +184,10 @@ def main() -> int:
         from . import selftest
 
         return selftest.run(a.selftest, seed)
+    if a.mutants:  # sensitivity: every kept seeded change against the check of the property it breaks (scratch worktrees only)
+        import subprocess
+
+        return subprocess.call([os.path.join(VERIF, "tools", "mutant_sweep.py")] + ([a.prop] if a.prop else []))
     if a.prop is None:
         ap.error("property id required")
     if a.replay:
